@@ -245,9 +245,12 @@ Proof.
   - intros a Na. rewrite M1. unfold zset. apply QueueProofs.nth_set_nth_neq. congruence.
   - rewrite moved_get by exact Hi. unfold range_ok. cbn [dev_with_src d_src d_claim_end]. rewrite Ee. destruct Ha as [->|Ha]; [right; reflexivity|left; split; assumption].
 Qed.
+Lemma next_address_null_restart fuel r i : d_src (get_dev (rn r) i) = 254 ->
+  next_address (S fuel) r i true = (let r1 := set_src r i 14 true in if same_as_sibling r1 i then next_address fuel r1 i true else set_addr_changed r1).
+Proof. intros E. cbn [next_address]. change c_N2kNullCanBusAddress with 254. rewrite E. reflexivity. Qed.
 Lemma next_address_restart r i : 0 <= i < dev_count (rn r) -> d_src (get_dev (rn r) i) = 254 -> searched r (next_address 300 r i true) i.
 Proof.
-  intros Hi E. change 300%nat with (S 299). cbn [next_address]. change c_N2kNullCanBusAddress with 254. rewrite E. cbn [Z.eqb Pos.eqb].
+  intros Hi E. rewrite (next_address_null_restart 299 r i E). cbv zeta.
   rewrite (set_src_true_valid r i 14 Hi). set (r1 := with_rn r _).
   assert (Hc1: dev_count (rn r1) = dev_count (rn r)) by (unfold r1; cbn [rn with_rn]; apply dev_count_upd).
   assert (Hg1: get_dev (rn r1) i = dev_with_src_end (get_dev (rn r) i) 14) by (unfold r1; cbn [rn with_rn]; apply get_upd_same; exact Hi).
